@@ -71,6 +71,8 @@ class Harness(object):
         mc = self.mc
         model = _scamp.Scamp(mc.structs, 0, 0, extra_chips=POOL, buffer_size=case["buffer"])
         model.chips[(3, 3)].num_cores = 17
+        for j, xy in enumerate(sorted(model.chips)):        # (each chip keeps its per-core blocks where its own sv says)
+            model.chips[xy].vcpu_base += 0x800 * (j % 3)
         app_id, wait = case["app_id"], case["wait"]
         pre = case.get("pre")
         more_pre = case.get("more_pre", ())
